@@ -16,6 +16,7 @@ package trace
 
 import (
 	"bytes"
+	"errors"
 	"fmt"
 	"time"
 
@@ -154,6 +155,9 @@ const (
 )
 
 func DecodeMessage(bz []byte) (msgType byte, msg Message, err error) {
+	if len(bz) == 0 {
+		return 0, nil, errors.New("empty message")
+	}
 	msgType = bz[0]
 	n := new(int)
 	r := bytes.NewReader(bz)
